@@ -263,6 +263,16 @@ def accept_paths(P, f, accept="true"):
                         continue
                     atoms["other"].append("%s=%s" % (f.describe_origin(o, deep=1)[:60], outcome))
                     continue
+                if o[0] == "call" and o[1].name == "len":
+                    # `match segments.len() { 1 => .., _ => .. }` / `if let 1 = segments.len()`: a switch on the length itself
+                    if re.fullmatch(r"\d+", str(outcome)):
+                        atoms["len"].append(("Eq", int(outcome)))
+                        continue
+                    vals_ = [v_ for (v_, _t) in t.get("targets", []) if isinstance(v_, int)]
+                    if str(outcome) in ("otherwise", "_") and vals_:
+                        for v_ in vals_:
+                            atoms["len"].append(("Ne", v_))
+                        continue
                 txt = f.describe_origin(o, deep=2)
                 if "PathSegment.arguments" in txt or "PathArguments" in txt:
                     if o[0] == "call" and o[1].name == "is_empty" and truth is not None:
